@@ -589,25 +589,8 @@ class SArr(real_np.ndarray):
             return NotImplemented
         raw = getattr(real_np.ndarray, name)(real_np.ndarray.view(self, real_np.ndarray), real_np.ndarray.view(o, real_np.ndarray) if isinstance(o, SArr) else o)
         out = SArr(raw.shape, rdt, fill=None)
-        bits = rdt.itemsize * 8
         for idx in real_np.ndindex(*raw.shape):
-            v = raw[idx]
-            if isinstance(v, Sym) and v.kind == 'i' and bits < 64:
-                lo, hi = (0, (1 << bits) - 1) if rdt.kind == 'u' else (-(1 << (bits - 1)), (1 << (bits - 1)) - 1)
-                out_of_range = z3.Or(v.e < lo, v.e > hi)
-                if c.feasible(out_of_range):
-                    # deciding query: can the mathematical result leave the dtype's range (so that numpy wraps it)?
-                    c.report('violation', f'{rdt.name} array arithmetic ({name.strip("_")}) wraps around: the mathematical result can leave [{lo}, {hi}] at {_site()}',
-                             key=f'intwrap:{rdt.name}:{name.strip("_")}', cond=out_of_range, info=dict(site=_site()))
-                m = v.e % (1 << bits)
-                if rdt.kind == 'i':
-                    m = z3.If(m >= (1 << (bits - 1)), m - (1 << bits), m)
-                v = Sym(z3.simplify(m))
-            elif isinstance(v, (int, real_np.integer)) and not isinstance(v, bool) and bits < 64:
-                v = int(v) % (1 << bits)
-                if rdt.kind == 'i' and v >= (1 << (bits - 1)):
-                    v -= 1 << bits
-            real_np.ndarray.__setitem__(out, idx, v)
+            real_np.ndarray.__setitem__(out, idx, np_int_wrap(raw[idx], rdt, name.strip('_')))
         return out
 
     def __sub__(self, o):
@@ -699,6 +682,40 @@ def _called_from_repo():
     while f is not None and f.f_code.co_filename.endswith(('symnb/arrays.py', 'symnb/npshim.py', 'symnb/core.py')):
         f = f.f_back
     return f is not None and '/abacusnbody/' in f.f_code.co_filename
+
+
+def np_int_wrap(v, rdt, opname):
+    """numpy's wrap-around of an integer result in the narrow dtype ``rdt``; reports (deciding query) when the mathematical
+    result can actually leave the dtype's range under the path condition"""
+    bits = rdt.itemsize * 8
+    if bits >= 64 or rdt.kind not in 'iu':
+        return v
+    c = core.ctx()
+    lo, hi = (0, (1 << bits) - 1) if rdt.kind == 'u' else (-(1 << (bits - 1)), (1 << (bits - 1)) - 1)
+    if isinstance(v, Sym) and v.kind == 'i':
+        out_of_range = z3.Or(v.e < lo, v.e > hi)
+        if c.feasible(out_of_range):
+            c.report('violation', f'{rdt.name} array arithmetic ({opname}) wraps around: the mathematical result can leave [{lo}, {hi}] at {_site()}',
+                     key=f'intwrap:{rdt.name}:{opname}', cond=out_of_range, info=dict(site=_site()))
+        m = v.e % (1 << bits)
+        if rdt.kind == 'i':
+            m = z3.If(m >= (1 << (bits - 1)), m - (1 << bits), m)
+        return Sym(z3.simplify(m))
+    if isinstance(v, (int, real_np.integer)) and not isinstance(v, bool):
+        v = int(v) % (1 << bits)
+        if rdt.kind == 'i' and v >= (1 << (bits - 1)):
+            v -= 1 << bits
+    return v
+
+
+def logical_dtype_of(a):
+    """logical numpy dtype of an object array that the engine knows about (SArr or a registered astropy Column buffer)"""
+    if isinstance(a, SArr):
+        return a.dtype.dt
+    info = root_info(a, create=False)
+    if info is not None and info.ld is not None:
+        return info.ld.dt
+    return None
 
 
 def wrap_like(out, like):
